@@ -3,7 +3,10 @@
 proof      Props/C16.v: rq_wf (the five clauses, executable, with diagnostics) implies that the back end's lookups
            are total and unambiguous; the Lowerer state machine keeps ids fresh / uses defined / tables declared
            before use / pipelines closed by a Select of the declared arity for ALL operation sequences.
-tie        for every program of a large generated family: RQ JSON of the implementation -> Coq term (vplib/rqcoq.py,
+tie        hook `lowerer-op-trace`: for every accepted program the operations lowering.rs performed on its id state are replayed, inside
+           Coq, against Model/Lowerer.v (every step, every observed id, the redirect maps, and the finished RQ = the emitted RQ), and
+           against the strict machine of Model/LowererVis.v (first out-of-scope operation; strict replay => rq_wf by theorem).
+           For every program of a large generated family: RQ JSON of the implementation -> Coq term (vplib/rqcoq.py,
            fails loudly on an unknown node) -> rq_diags evaluated inside Coq, and a python mirror evaluated on all
            programs and cross-validated against Coq on every program evaluated in Coq.
 oracle     any RQ the resolver emits that fails a clause is reported with the program as replay; the RQ is
@@ -30,8 +33,13 @@ TRUSTED = [
     "harness/src/c16.rs (prql_to_pl, pl_to_rq, json::from_rq/to_rq, rq_to_sql) and the python comparison",
     "modelled, not verified: the resolver itself -- that the RQ it emits satisfies rq_wf is validated per program (this stream), not proved; "
     "the Lowerer state machine (Model/Lowerer.v) is a hand-written restatement of semantic/lowering.rs' use of its id generators, "
-    "node_mapping, pipeline buffer and table_buffer; it is tied to the code through the resulting RQ (two runs are reproduced term for term in "
-    "Props/C16.v); the op trace that hook 120eb8c `lowerer-op-trace` emits is not replayed against the machine yet",
+    "node_mapping, pipeline buffer and table_buffer; it is tied to the code operation by operation: hook 120eb8c `lowerer-op-trace` logs every "
+    "operation on that state, vplib/props/c16_trace.py groups the events into operations (syntactic grouping, trusted) and replay_verdict, evaluated "
+    "inside Coq for every accepted program, checks each step and the finished RQ (Model/LowererTrace.v; soundness: trace_replay_sound)",
+    "not in the trace, hence not compared: the path of an extern table (taken from the RQ), which expression an `alias` declare lowered (its cid is an input "
+    "of the operation), the reads of node_mapping by lookup_cid (only their results, inside the pushed transforms, are checked against the guard)",
+    "the resolver's scoping is not modelled: that every operation stays within the visible set (vstep) is established per program by the strict replay; "
+    "the consequence rq_wf is then a theorem (strict_runs_emit_wf_rq), and the strict verdict is cross-checked against rq_diags on every program",
     "idgen_load (Model/Lowerer.v) is tied to utils/id_gen.rs by the id-load-bounds stream (ids at usize::MAX/2, MAX/2+1, MAX through json::to_rq + rq_to_sql)",
     "the back end's lookups are modelled over the whole query (lookup_cid / lookup_tid); the real AnchorContext fills its maps "
     "incrementally, which is why visibility (strict rq_wf), not only definedness, is what it needs",
